@@ -103,10 +103,18 @@ func (s *byteSrc) Bytes(max int, label string) []byte {
 }
 
 type maker struct {
-	s    src
-	f    *hist.Farm
-	excl func(string) bool
-	n    int
+	s     src
+	f     *hist.Farm
+	excl  func(string) bool
+	n     int
+	convs []bid_data.BidConvId // bid conversations this maker tried to open
+}
+
+func min(a, b int) int {
+	if a < b {
+		return a
+	}
+	return b
 }
 
 func (m *maker) excluded(kind, class string) bool {
@@ -160,6 +168,10 @@ func (m *maker) hostileAddr() hv {
 		{rawJSON("12345"), "addr-number"},
 		{rawJSON("[]"), "addr-array"},
 		{"0lt" + strings.Repeat("ab", 2000), "addr-4kB"},
+	}
+	// absent / empty addresses are the class handlers most often forget: a third of the draws
+	if m.pick(3, "addrnil") == 0 {
+		return pool[m.pick(3, "addrnilk")]
 	}
 	return pool[m.pick(len(pool), "addr")]
 }
@@ -375,7 +387,35 @@ func (m *maker) mutateFields(base txgen.Tx) (Input, bool) {
 		return Input{}, false
 	}
 	var tags []string
+	// a BTCECSECP-typed public key has the nil address and "verifies" every signature: a message whose
+	// signer fields are nil passes the signature check without any key
+	keyless := m.pick(9, "keyless") == 0
+	if keyless {
+		addrs := map[string]bool{}
+		for _, u := range signers {
+			addrs[u.Addr.String()] = true
+		}
+		var refs []fieldRef
+		collect("", msg, &refs)
+		empty := m.pick(2, "nilorempty") == 0
+		for _, r := range refs {
+			if sv, ok := r.old.(string); ok && r.class == "addr" && addrs[sv] {
+				if empty {
+					r.set("")
+				} else {
+					r.set(nil)
+				}
+				tags = append(tags, r.path+"=addr-nil+keyless-signature")
+			}
+		}
+		if len(tags) == 0 {
+			keyless = false
+		}
+	}
 	nmut := 1 + m.pick(4, "nmut")/3 // mostly one field
+	if keyless {
+		nmut = m.pick(2, "nmutk")
+	}
 	for k := 0; k < nmut; k++ {
 		var refs []fieldRef
 		collect("", msg, &refs)
@@ -429,6 +469,17 @@ func (m *maker) mutateFields(base txgen.Tx) (Input, bool) {
 		return Input{}, false
 	}
 	raw := action.RawTx{Type: stx.Type, Data: data, Fee: stx.Fee, Memo: m.memo()}
+	if keyless {
+		var sigs []action.Signature
+		for range signers {
+			sigs = append(sigs, action.Signature{Signer: m.f.W.G.U.Vals[0].EcdsaPub, Signed: []byte{1}})
+		}
+		b, err := json.Marshal(action.SignedTx{RawTx: raw, Signatures: sigs})
+		if err != nil {
+			return Input{}, false
+		}
+		return Input{Bytes: b, Kind: base.Kind, Tier: "field", Tags: tags}, true
+	}
 	return Input{Bytes: txgen.SignRaw(raw, signers...), Kind: base.Kind, Tier: "field", Tags: tags}, true
 }
 
@@ -555,7 +606,7 @@ func (m *maker) hostileEthTx(kind string) ([]byte, string) {
 	e := m.f.E
 	lockSig := ethcmn.FromHex("0xf83d08ba")
 	redeemSig := ethcmn.FromHex("0xdb006a75")
-	ercRedeemSig := ethcmn.FromHex("0x1e9a6950")
+	ercRedeemSig := ethcrypto.Keccak256([]byte("redeem(uint256,address)"))[:4]
 	transferSig := ethcmn.FromHex("0xa9059cbb")
 	word := func(v *big.Int) []byte { return ethcmn.LeftPadBytes(v.Bytes(), 32) }
 	sign := func(tx *ethtypes.Transaction) []byte {
@@ -688,40 +739,40 @@ var olvmPrograms = []struct {
 	name string
 	code string
 }{
-	{"basefee", "0x4860005260206000f3"},            // BASEFEE; MSTORE; RETURN
-	{"basefee-pop", "0x485000"},                    // BASEFEE POP STOP
-	{"difficulty", "0x4460005260206000f3"},         // DIFFICULTY / PREVRANDAO
-	{"chainid", "0x4660005260206000f3"},            // CHAINID
-	{"selfbalance", "0x4760005260206000f3"},        // SELFBALANCE
-	{"coinbase", "0x4160005260206000f3"},           // COINBASE
-	{"gaslimit", "0x4560005260206000f3"},           // GASLIMIT
-	{"timestamp", "0x4260005260206000f3"},          // TIMESTAMP
-	{"number", "0x4360005260206000f3"},             // NUMBER
-	{"blockhash-prev", "0x6001430340600052"},       // BLOCKHASH(NUMBER-1)
-	{"blockhash-far", "0x61010043034060005200"},    // BLOCKHASH(NUMBER-256)
-	{"blockhash-future", "0x6001430140600052"},     // BLOCKHASH(NUMBER+1)
-	{"invalid-opcode", "0xfe"},                     //
-	{"undefined-opcode", "0x0c"},                   //
-	{"push-truncated", "0x7f0102"},                 // PUSH32 with 2 bytes
-	{"stack-underflow", "0x01"},                    // ADD on empty stack
-	{"jump-bad", "0x600556"},                       // JUMP to non-JUMPDEST
-	{"selfdestruct-self", "0x30ff"},                // SELFDESTRUCT(ADDRESS)
-	{"selfdestruct-zero", "0x6000ff"},              //
-	{"create2", "0x6000600060006000f5"},            // CREATE2(0,0,0,0)
-	{"create-in-create", "0x600060006000f0"},       // CREATE(0,0,0)
+	{"basefee", "0x4860005260206000f3"},         // BASEFEE; MSTORE; RETURN
+	{"basefee-pop", "0x485000"},                 // BASEFEE POP STOP
+	{"difficulty", "0x4460005260206000f3"},      // DIFFICULTY / PREVRANDAO
+	{"chainid", "0x4660005260206000f3"},         // CHAINID
+	{"selfbalance", "0x4760005260206000f3"},     // SELFBALANCE
+	{"coinbase", "0x4160005260206000f3"},        // COINBASE
+	{"gaslimit", "0x4560005260206000f3"},        // GASLIMIT
+	{"timestamp", "0x4260005260206000f3"},       // TIMESTAMP
+	{"number", "0x4360005260206000f3"},          // NUMBER
+	{"blockhash-prev", "0x6001430340600052"},    // BLOCKHASH(NUMBER-1)
+	{"blockhash-far", "0x61010043034060005200"}, // BLOCKHASH(NUMBER-256)
+	{"blockhash-future", "0x6001430140600052"},  // BLOCKHASH(NUMBER+1)
+	{"invalid-opcode", "0xfe"},                  //
+	{"undefined-opcode", "0x0c"},                //
+	{"push-truncated", "0x7f0102"},              // PUSH32 with 2 bytes
+	{"stack-underflow", "0x01"},                 // ADD on empty stack
+	{"jump-bad", "0x600556"},                    // JUMP to non-JUMPDEST
+	{"selfdestruct-self", "0x30ff"},             // SELFDESTRUCT(ADDRESS)
+	{"selfdestruct-zero", "0x6000ff"},           //
+	{"create2", "0x6000600060006000f5"},         // CREATE2(0,0,0,0)
+	{"create-in-create", "0x600060006000f0"},    // CREATE(0,0,0)
 	{"call-precompile-1", "0x60006000600060006000600161fffff1"},
 	{"call-precompile-9", "0x60006000600060006000600961fffff1"},
 	{"call-precompile-5-big", "0x60006000606060006000600561fffff1"},
 	{"staticcall-self", "0x6000600060006000305afa"},
 	{"delegatecall-zero", "0x60006000600060006000 5af4"},
-	{"return-huge", "0x63ffffffff6000f3"},          // RETURN(0, 2^32-1)
-	{"mstore-huge", "0x600163ffffffff52"},          // MSTORE at 2^32
+	{"return-huge", "0x63ffffffff6000f3"}, // RETURN(0, 2^32-1)
+	{"mstore-huge", "0x600163ffffffff52"}, // MSTORE at 2^32
 	{"returndatacopy-oob", "0x60016000600 03e"},
 	{"extcodecopy-self", "0x6020600060003 03c"},
 	{"log4", "0x60016002600360046000 6000a4"},
 	{"sstore-loop", "0x5b6001600055600056"},
-	{"code-0xef", "0x60ef60005360016000f3"},        // returns code starting with 0xEF (EIP-3541)
-	{"code-too-large", "0x6160016000f3"},           // returns 0x6001 = 24577 bytes of zero code
+	{"code-0xef", "0x60ef60005360016000f3"}, // returns code starting with 0xEF (EIP-3541)
+	{"code-too-large", "0x6160016000f3"},    // returns 0x6001 = 24577 bytes of zero code
 	{"empty", "0x"},
 }
 
@@ -827,6 +878,40 @@ func (m *maker) olvmInput() Input {
 			}
 		}
 	}
+	// the signature list itself (the ethereum signature is checked by go-ethereum code)
+	if m.pick(8, "olvmsig") == 0 {
+		if stx, err := parseSigned(tx.Bytes); err == nil && len(stx.Signatures) == 1 {
+			sg := stx.Signatures[0].Signed
+			tag := ""
+			switch m.pick(8, "olvmsigk") {
+			case 0:
+				stx.Signatures[0].Signed, tag = nil, "signature-nil"
+			case 1:
+				stx.Signatures[0].Signed, tag = sg[:64], "signature-64"
+			case 2:
+				stx.Signatures[0].Signed, tag = append(append([]byte{}, sg...), 0), "signature-66"
+			case 3:
+				x := append([]byte{}, sg...)
+				x[64] = byte(2 + m.pick(250, "recid"))
+				stx.Signatures[0].Signed, tag = x, "signature-recid-odd"
+			case 4:
+				x := make([]byte, 65)
+				stx.Signatures[0].Signed, tag = x, "signature-zero"
+			case 5:
+				x := bytes.Repeat([]byte{0xff}, 65)
+				x[64] = 0
+				stx.Signatures[0].Signed, tag = x, "signature-ff"
+			case 6:
+				stx.Signatures, tag = nil, "signatures-empty"
+			default:
+				stx.Signatures, tag = append(stx.Signatures, stx.Signatures[0]), "signatures-extra"
+			}
+			if b, err := json.Marshal(stx); err == nil {
+				tx.Bytes = b
+				tags = append(tags, tag)
+			}
+		}
+	}
 	return Input{Bytes: tx.Bytes, Kind: "OLVM", Tier: "olvm", Tags: tags}
 }
 
@@ -843,14 +928,28 @@ func (m *maker) bidInput() Input {
 	f := m.f
 	A, B := f.A, f.B
 	fee := f.W.Fee
-	id := bid_data.BidConvId(utils.SHA2([]byte(fmt.Sprintf("conv-%d", m.pick(3, "conv")))).String())
+	// conversation ids are sha256(owner + asset + bidder + height of the creating block)
+	id := bid_data.BidConvId(hex.EncodeToString(utils.SHA2([]byte(fmt.Sprintf("conv-%d", m.pick(3, "conv"))))))
+	if len(m.convs) > 0 && m.pick(5, "knownconv") != 0 {
+		id = m.convs[len(m.convs)-1-m.pick(min(3, len(m.convs)), "whichconv")]
+	}
 	amt := txgen.Amt("OLT", new(big.Int).Mul(big.NewInt(int64(1+m.pick(20, "bidamt"))), big.NewInt(1000000000000000000)))
 	deadline := f.W.C.Time.Unix() + int64(m.pick(100000, "dl")) - 1000
-	names := []string{"alice.ol", "shop.ol", "sub.alice.ol", "nosuch.ol", ""}
+	names := []string{"alice.ol", "alice.ol", "shop.ol", "sub.alice.ol", "nosuch.ol", ""}
 	name := names[m.pick(len(names), "asset")]
 	var tx txgen.Tx
-	switch m.pick(6, "bidkind") {
+	bk := m.pick(9, "bidkind")
+	if bk >= 6 {
+		bk = 0
+	}
+	switch bk {
 	case 0:
+		if m.pick(3, "newconv") != 0 {
+			id = ""
+			h := f.W.C.Height + 1
+			uk := A.Addr.String() + name + B.Addr.String() + fmt.Sprint(h)
+			m.convs = append(m.convs, bid_data.BidConvId(hex.EncodeToString(utils.SHA2([]byte(uk)))))
+		}
 		tx = txgen.Build("BID_CREATE", bid_action.BID_CREATE, bid_action.CreateBid{BidConvId: id, AssetOwner: A.Addr, AssetName: name, AssetType: bid_data.BidAssetOns, Bidder: B.Addr, Amount: amt, Deadline: deadline}, fee, m.memo(), B)
 	case 1:
 		tx = txgen.Build("BID_CONTER_OFFER", bid_action.BID_CONTER_OFFER, bid_action.CounterOffer{BidConvId: id, AssetOwner: A.Addr, Amount: amt}, fee, m.memo(), A)
@@ -957,8 +1056,19 @@ func knownType(b []byte) (string, bool) {
 
 // ---------------------------------------------------------------- the mixture
 
-// next draws the next hostile input.
+// next draws the next hostile input that no known finding excludes.
 func (m *maker) next(g *hist.Gen) Input {
+	for try := 0; try < 50; try++ {
+		in := m.draw(g)
+		if _, ex := excludedInput(in.Bytes, m.excl); ex {
+			continue
+		}
+		return in
+	}
+	return Input{Bytes: []byte("{}"), Kind: "RAW", Tier: "raw", Tags: []string{"fallback"}}
+}
+
+func (m *maker) draw(g *hist.Gen) Input {
 	for try := 0; try < 20; try++ {
 		k := m.pick(100, "source")
 		switch {
